@@ -279,4 +279,172 @@ theorem sgrColor_indexed_numeric (n : List Nat) (hn : Digits n) (rest : List (Li
     unfold palette
     rw [if_neg (by omega), if_neg (by omega), if_neg (by omega)]
 
+/-! ## byte level: SGR true colour, the whole size report, kitty key codes that are not characters -/
+
+theorem n38 : numberDecode [51, 56] = some 38 := by decide
+theorem s38 : splitBy 58 [51, 56] = [[51, 56]] := by decide
+theorem s2 : splitBy 58 [50] = [[50]] := by decide
+
+theorem digits_split58 (ds : List Nat) (hd : Digits ds) : splitBy 58 ds = [ds] :=
+  splitBy_no_sep 58 ds (digits_no 58 (by omega) ds hd)
+
+/-- `ESC [ 38 ; 2 ; r ; g ; b m`, all components in range: exactly that colour -/
+theorem sgr_truecolor_bytes (r g b : List Nat) (hr : Digits r) (hg : Digits g) (hb : Digits b)
+    (h : clampDec r ≤ 255 ∧ clampDec g ≤ 255 ∧ clampDec b ≤ 255) :
+    decodeSgr ([27, 91] ++ (([51, 56] ++ 59 :: ([50] ++ 59 :: (r ++ 59 :: (g ++ 59 :: b)))) ++ [109])) =
+      .ok (some (.command { fg := some ⟨clampDec r, clampDec g, clampDec b, 255⟩ })) := by
+  unfold decodeSgr decodeSgrBody
+  rw [sub?_ok _ _ (by simp)]
+  simp only
+  rw [slice?_body [27, 91] _ 109 2 rfl]
+  simp only
+  unfold sgrFace
+  rw [splitBy_append_sep 59 [51, 56] _ (by decide), splitBy_append_sep 59 [50] _ (by decide),
+    splitBy_append_sep 59 r _ (digits_no 59 sep59 r hr), splitBy_append_sep 59 g _ (digits_no 59 sep59 g hg),
+    splitBy_no_sep 59 b (digits_no 59 sep59 b hb)]
+  have e := sgrColor_semicolon_numeric r g b hr hg hb []
+  rw [if_pos h] at e
+  have hr' := h.1
+  have hg' := h.2.1
+  have hb' := h.2.2
+  unfold clampDec at hr' hg' hb'
+  simp [sgrFaceLoop_cons, sgrFaceLoop_nil, sgrFaceStep, s38, n38, sgrColor, numberDecode_two, nextNum, toU8,
+    numberDecode_digits r hr, numberDecode_digits g hg, numberDecode_digits b hb, hr', hg', hb', clampDec]
+
+/-- the same sequence with the last component above 255: no colour (and nothing else) — not `b mod 256` -/
+theorem sgr_truecolor_bytes_high (r g b : List Nat) (hr : Digits r) (hg : Digits g) (hb : Digits b)
+    (h1 : clampDec r ≤ 255) (h2 : clampDec g ≤ 255) (h3 : 255 < clampDec b) :
+    decodeSgr ([27, 91] ++ (([51, 56] ++ 59 :: ([50] ++ 59 :: (r ++ 59 :: (g ++ 59 :: b)))) ++ [109])) =
+      .ok (some (.command {})) := by
+  unfold decodeSgr decodeSgrBody
+  rw [sub?_ok _ _ (by simp)]
+  simp only
+  rw [slice?_body [27, 91] _ 109 2 rfl]
+  simp only
+  unfold sgrFace
+  rw [splitBy_append_sep 59 [51, 56] _ (by decide), splitBy_append_sep 59 [50] _ (by decide),
+    splitBy_append_sep 59 r _ (digits_no 59 sep59 r hr), splitBy_append_sep 59 g _ (digits_no 59 sep59 g hg),
+    splitBy_no_sep 59 b (digits_no 59 sep59 b hb)]
+  unfold clampDec at h1 h2 h3
+  have h3' : ¬ min usizeMax (readDec b) ≤ 255 := by omega
+  simp [sgrFaceLoop_cons, sgrFaceLoop_nil, sgrFaceStep, s38, n38, sgrColor, numberDecode_two, nextNum, toU8,
+    numberDecode_digits r hr, numberDecode_digits g hg, numberDecode_digits b hb, h1, h2, h3']
+
+/-- colon forms `ESC [ 38 : 2 : r : g : b m` and `ESC [ 38 : 2 : cs : r : g : b m` (four components: the
+    colour space id is skipped): the colour when all three components are in range, else none -/
+theorem sgr_truecolor_colon_bytes (cs : Option (List Nat)) (r g b : List Nat) (hcs : ∀ c, cs = some c → Digits c)
+    (hr : Digits r) (hg : Digits g) (hb : Digits b) :
+    decodeSgr ([27, 91] ++ (([51, 56] ++ 58 :: ([50] ++ 58 ::
+        ((match cs with | some c => c ++ [58] | none => []) ++ (r ++ 58 :: (g ++ 58 :: b))))) ++ [109])) =
+      .ok (some (.command { fg := (if clampDec r ≤ 255 ∧ clampDec g ≤ 255 ∧ clampDec b ≤ 255
+        then some (Rgba.mk (clampDec r) (clampDec g) (clampDec b) 255) else none) })) := by
+  unfold decodeSgr decodeSgrBody
+  rw [sub?_ok _ _ (by simp)]
+  simp only
+  rw [slice?_body [27, 91] _ 109 2 rfl]
+  simp only
+  unfold sgrFace
+  have d58 : ∀ ds, Digits ds → 58 ∉ ds := fun ds h => digits_no 58 (by omega) ds h
+  have d59 : ∀ ds, Digits ds → 59 ∉ ds := fun ds h => digits_no 59 sep59 ds h
+  cases cs with
+  | none =>
+    simp only [List.nil_append]
+    have hno : 59 ∉ [51, 56] ++ 58 :: ([50] ++ 58 :: (r ++ 58 :: (g ++ 58 :: b))) := by
+      simp only [List.mem_append, List.mem_cons, List.not_mem_nil, or_false, not_or]
+      exact ⟨by omega, by omega, by omega, by omega, d59 r hr, by omega, d59 g hg, by omega, d59 b hb⟩
+    rw [splitBy_no_sep 59 _ hno]
+    have hsplit : splitBy 58 ([51, 56] ++ 58 :: ([50] ++ 58 :: (r ++ 58 :: (g ++ 58 :: b)))) = [[51, 56], [50], r, g, b] := by
+      rw [splitBy_append_sep 58 [51, 56] _ (by decide), splitBy_append_sep 58 [50] _ (by decide),
+        splitBy_append_sep 58 r _ (d58 r hr), splitBy_append_sep 58 g _ (d58 g hg), splitBy_no_sep 58 b (d58 b hb)]
+    have e := sgrColor_colon_numeric r g b hr hg hb
+    simp only [List.cons_append, List.nil_append, List.append_assoc] at hsplit
+    simp [sgrFaceLoop_cons, sgrFaceLoop_nil, sgrFaceStep, hsplit, n38, e]
+  | some c =>
+    have hc := hcs c rfl
+    simp only
+    have hno : 59 ∉ [51, 56] ++ 58 :: ([50] ++ 58 :: (c ++ [58] ++ (r ++ 58 :: (g ++ 58 :: b)))) := by
+      simp only [List.mem_append, List.mem_cons, List.not_mem_nil, or_false, not_or]
+      exact ⟨by omega, by omega, by omega, by omega, ⟨d59 c hc, by omega⟩, d59 r hr, by omega, d59 g hg, by omega, d59 b hb⟩
+    rw [splitBy_no_sep 59 _ hno]
+    have hsplit : splitBy 58 ([51, 56] ++ 58 :: ([50] ++ 58 :: (c ++ [58] ++ (r ++ 58 :: (g ++ 58 :: b))))) =
+        [[51, 56], [50], c, r, g, b] := by
+      have e : c ++ [58] ++ (r ++ 58 :: (g ++ 58 :: b)) = c ++ 58 :: (r ++ 58 :: (g ++ 58 :: b)) := by simp
+      rw [e, splitBy_append_sep 58 [51, 56] _ (by decide), splitBy_append_sep 58 [50] _ (by decide),
+        splitBy_append_sep 58 c _ (d58 c hc),
+        splitBy_append_sep 58 r _ (d58 r hr), splitBy_append_sep 58 g _ (d58 g hg), splitBy_no_sep 58 b (d58 b hb)]
+    simp only [List.cons_append, List.nil_append, List.append_assoc] at hsplit
+    unfold clampDec
+    by_cases h1 : min usizeMax (readDec r) ≤ 255
+    · by_cases h2 : min usizeMax (readDec g) ≤ 255
+      · by_cases h3 : min usizeMax (readDec b) ≤ 255
+        · simp [sgrFaceLoop_cons, sgrFaceLoop_nil, sgrFaceStep, hsplit, n38, sgrColor, numberDecode_two, nextNum, toU8,
+            numberDecode_digits c hc, numberDecode_digits r hr, numberDecode_digits g hg, numberDecode_digits b hb, h1, h2, h3]
+        · simp [sgrFaceLoop_cons, sgrFaceLoop_nil, sgrFaceStep, hsplit, n38, sgrColor, numberDecode_two, nextNum, toU8,
+            numberDecode_digits c hc, numberDecode_digits r hr, numberDecode_digits g hg, numberDecode_digits b hb, h1, h2, h3]
+      · simp [sgrFaceLoop_cons, sgrFaceLoop_nil, sgrFaceStep, hsplit, n38, sgrColor, numberDecode_two, nextNum, toU8,
+          numberDecode_digits c hc, numberDecode_digits r hr, numberDecode_digits g hg, numberDecode_digits b hb, h1, h2]
+    · simp [sgrFaceLoop_cons, sgrFaceLoop_nil, sgrFaceStep, hsplit, n38, sgrColor, numberDecode_two, nextNum, toU8,
+        numberDecode_digits c hc, numberDecode_digits r hr, numberDecode_digits g hg, numberDecode_digits b hb, h1]
+
+/-- the whole size report `ESC [ 8 ; h ; w t ESC [ 4 ; h ; w t` -/
+theorem termSize_numeric (h1 w1 h2 w2 : List Nat) (a1 : Digits h1) (b1 : Digits w1) (a2 : Digits h2) (b2 : Digits w2) :
+    decodeTermSize (27 :: ((91 :: ([56] ++ ((59 :: (h1 ++ 59 :: w1)) ++ [116]))) ++
+        27 :: (91 :: ([52] ++ ((59 :: (h2 ++ 59 :: w2)) ++ [116]))))) =
+      .ok (some (.size (clampDec h1) (clampDec w1) (clampDec h2) (clampDec w2))) := by
+  have no27 : ∀ (k : Nat) (h w : List Nat), k ≠ 27 → Digits h → Digits w →
+      27 ∉ (91 :: ([k] ++ ((59 :: (h ++ 59 :: w)) ++ [116]))) := by
+    intro k h w hk dh dw hm
+    simp only [List.mem_cons, List.mem_append, List.not_mem_nil, or_false] at hm
+    rcases hm with hm | hm | (hm | hm | hm | hm) | hm
+    · omega
+    · omega
+    · omega
+    · exact digits_no 27 (by omega) h dh hm
+    · omega
+    · exact digits_no 27 (by omega) w dw hm
+    · omega
+  unfold decodeTermSize
+  rw [splitBy]
+  simp only [if_true]
+  rw [splitBy_append_sep 27 _ _ (no27 56 h1 w1 (by omega) a1 b1), splitBy_no_sep 27 _ (no27 52 h2 w2 (by omega) a2 b2)]
+  simp only
+  rw [sizePair_numeric [56] h1 w1 (by intro d hd; simp at hd; omega) a1 b1 rfl,
+    sizePair_numeric [52] h2 w2 (by intro d hd; simp at hd; omega) a2 b2 rfl]
+
+/-- `ESC [ code u` with a code that is not a character: above `u32::MAX` (incl. every value clamped at
+    `usize::MAX`), a surrogate or beyond U+10FFFF, or in the private use block outside the function keys — the
+    sequence is unrecognised (`None`, hence `Raw`); never a truncated or wrapped character -/
+theorem kittyKey_rejected (c : List Nat) (hc : Digits c) (hn : clampDec c ∉ [27, 13, 9, 127])
+    (hf : ¬ (57376 ≤ clampDec c ∧ clampDec c ≤ 57398))
+    (h : 4294967295 < clampDec c ∨ SurfModel.Payload.isScalar (clampDec c) = false ∨
+      (57344 ≤ clampDec c ∧ clampDec c ≤ 63743)) :
+    decodeKittyKeyboard ([27, 91] ++ (c ++ [117])) = .ok none := by
+  unfold decodeKittyKeyboard
+  rw [sub?_ok _ _ (by simp)]
+  simp only
+  rw [slice?_body [27, 91] c 117 2 rfl]
+  simp only
+  have hhead : c.head? ≠ some 63 := by
+    cases c with
+    | nil => simp
+    | cons a r =>
+      have := hc a (by simp)
+      simp only [List.head?_cons, ne_eq, Option.some.injEq]
+      omega
+  rw [if_neg hhead, splitBy_no_sep 59 c (digits_no 59 sep59 c hc)]
+  simp only
+  rw [numbersDecode_one_digits 58 (by omega) c hc]
+  simp only [List.head?_cons, Option.getD_some]
+  simp only [List.mem_cons, List.not_mem_nil, or_false, not_or] at hn
+  have hk : keyboardDecodeKey (clampDec c) = none := by
+    unfold keyboardDecodeKey
+    rw [if_neg hn.1, if_neg hn.2.1, if_neg hn.2.2.1, if_neg hn.2.2.2, if_neg hf]
+    rcases h with h | h | h
+    · rw [if_neg (by omega)]
+    · by_cases hp : clampDec c ≤ 4294967295 ∧ ¬ (57344 ≤ clampDec c ∧ clampDec c ≤ 63743)
+      · rw [if_pos hp, h]; rfl
+      · rw [if_neg hp]
+    · rw [if_neg (by omega)]
+  rw [hk]
+
 end SurfProofs.PayloadNumeric
